@@ -406,8 +406,10 @@ def one_frame(ctx, case, ell, E, shape, ref_sys, llh_rows, trs_rows, dvecs, dvel
     enu = rows_of(np.asarray(delta.enu, dtype=float))
     back = rows_of(np.asarray(delta.enu.trs, dtype=float))
     k = 6 if six else 3
-    if enu.shape != (m, k) or back.shape != (m, k):
-        gviolate(ctx, f"shape:delta.enu:{shape}", f"delta.enu has shape {np.asarray(delta.enu).shape} for input shape {np.asarray(dval).shape}", case)
+    # a (k,) input is one vector, a (1,k) input an array of one row: the result has the rows of the input
+    raw_shapes = (np.asarray(delta.enu).shape, np.asarray(delta.enu.trs).shape)
+    if enu.shape != (m, k) or back.shape != (m, k) or raw_shapes != (np.asarray(dval).shape,) * 2:
+        gviolate(ctx, f"shape:delta.enu:{shape}", f"delta.enu / delta.enu.trs have shapes {raw_shapes} for input shape {np.asarray(dval).shape}", case)
         return
     # ---- correspondence: frame of the reference position through the trs2llh model, then the matrix product
     lines = []
@@ -951,12 +953,29 @@ def _arr(rows, shape):
     return a[0].copy() if shape == "1d" else a
 
 
-def _code(fn):
-    """the result as rows, or 'refused' when NumPy does not accept the shapes"""
+def _code(fn, shapes=None, note=None):
+    """the result as rows, or 'refused' when NumPy does not accept the shapes; `note(raw shape)` is told the shape"""
     try:
-        return rows_of(np.asarray(fn(), dtype=float))
+        r = np.asarray(fn(), dtype=float)
     except ValueError:
         return "refused"
+    if note is not None:
+        note(r.shape)
+    return rows_of(r)
+
+
+def _rows_kept(ctx, case, got_shape, na, sha, nb, shb):
+    """result rows = input rows: 2-d values (also of one row) give a 2-d result of max(rows) rows, a single vector with a
+    single reference position gives a single vector"""
+    k = got_shape[-1] if got_shape else 0
+    if shb == "nxk":
+        want = (max(na, nb), k)
+    elif sha == "1d":
+        want = (k,)
+    else:
+        return  # one vector against an array of reference positions: the vector in every frame, not asserted here
+    if tuple(got_shape) != want:
+        gviolate(ctx, f"shape:broadcast:{case['what']}", f"values of shape {(nb, k) if shb == 'nxk' else (k,)} with reference positions of shape {(na, 3) if sha == 'nxk' else '(k,)'} give a result of shape {tuple(got_shape)}, expected {want}", case)
 
 
 def check_broadcast(ctx: Ctx):
@@ -988,10 +1007,10 @@ def check_broadcast(ctx: Ctx):
                 src, dst = direction.split("2")
                 if six:
                     ref = PosVel(_arr([p + [10.0, -20.0, 30.0] for p in trs_rows], sha), "trs", ellipsoid=E)
-                    impl = _code(lambda: getattr(PosVelDelta(_arr(vecs, shb), src, ref_pos=ref), dst))
+                    impl = _code(lambda: getattr(PosVelDelta(_arr(vecs, shb), src, ref_pos=ref), dst), note=lambda sh: _rows_kept(ctx, case, sh, na, sha, nb, shb))
                 else:
                     ref = Position(_arr(trs_rows, sha), "trs", ellipsoid=E)
-                    impl = _code(lambda: getattr(PositionDelta(_arr(vecs, shb), src, ref_pos=ref), dst))
+                    impl = _code(lambda: getattr(PositionDelta(_arr(vecs, shb), src, ref_pos=ref), dst), note=lambda sh: _rows_kept(ctx, case, sh, na, sha, nb, shb))
                 frames = rows_of(np.asarray(ref.pos.llh.val, dtype=float))
                 if six and direction == "enu2trs":
                     # the model's 6-vector command exists for trs -> enu; the other direction through the 3-vector halves
@@ -1019,7 +1038,7 @@ def check_broadcast(ctx: Ctx):
                 ctx.case(case, nontrivial=True)
                 src, dst = direction.split("2")
                 ref = PosVel(_arr([list(r) + list(v) for r, v in states], sha), "trs")
-                impl = _code(lambda: getattr(PosVelDelta(_arr(vecs, shb), src, ref_pos=ref), dst))
+                impl = _code(lambda: getattr(PosVelDelta(_arr(vecs, shb), src, ref_pos=ref), dst), note=lambda sh: _rows_kept(ctx, case, sh, na, sha, nb, shb))
                 a = drv.ask1(f"c06 f rowsb {direction} {na} {nb} " + " ".join(fline(*r, *v) for r, v in states) + " " + " ".join(fline(*v) for v in vecs))
                 model = "refused" if a == "refused" else np.array(floats(a)).reshape(-1, 6)
                 sins = [max(float(np.linalg.norm(np.cross(np.array(r) / np.linalg.norm(r), np.array(v) / np.linalg.norm(v)))), 1e-12) for r, v in states]
@@ -1325,8 +1344,10 @@ def one_acr(ctx, case, shape, states, deltas):
     a2t = a2t.reshape(-1, 3, 3)
     acr = rows_of(np.asarray(delta.acr, dtype=float))
     back = rows_of(np.asarray(delta.acr.trs, dtype=float))
-    if acr.shape != (m, 6) or back.shape != (m, 6):
-        gviolate(ctx, f"shape:delta.acr:{shape}", f"delta.acr has shape {np.asarray(delta.acr).shape}", case)
+    raw_shapes = (np.asarray(delta.acr).shape, np.asarray(delta.acr.trs).shape)
+    in_shape = np.asarray(as_shape(deltas, shape)).shape
+    if acr.shape != (m, 6) or back.shape != (m, 6) or raw_shapes != (in_shape,) * 2:
+        gviolate(ctx, f"shape:delta.acr:{shape}", f"delta.acr / delta.acr.trs have shapes {raw_shapes} for input shape {in_shape}", case)
         return
     lines = []
     for i, (r, v) in enumerate(states):
@@ -1477,8 +1498,10 @@ def check_azel(ctx: Ctx):
             continue
         if az2.shape != az.shape or not (np.allclose(az2, az, rtol=0, atol=1e-12) and np.allclose(el2, el, rtol=0, atol=1e-12) and np.allclose(zd2, zd, rtol=0, atol=1e-12)):
             gviolate(ctx, "azel:property-vs-method", f"azimuth/elevation/zenith_distance properties {az.tolist(), el.tolist(), zd.tolist()} differ from azimuth_to/elevation_to/zenith_distance_to {az2.tolist(), el2.tolist(), zd2.tolist()}", case)
-        if az.shape != (m,) or el.shape != (m,) or zd.shape != (m,):
-            gviolate(ctx, f"shape:azel:{shape}", f"azimuth has shape {az.shape} for {m} positions", case)
+        raw = tuple(np.shape(getattr(ref, nme)) for nme in ("azimuth", "elevation", "zenith_distance")) + tuple(np.shape(x) for x in (ref2.azimuth_to(other), ref2.elevation_to(other), ref2.zenith_distance_to(other)))
+        want_raw = () if shape == "1d" else (m,)
+        if az.shape != (m,) or el.shape != (m,) or zd.shape != (m,) or any(r != want_raw for r in raw):
+            gviolate(ctx, f"shape:azel:{shape}", f"azimuth / elevation / zenith_distance (properties, *_to methods) have shapes {raw} for positions of shape {np.shape(ref)}: one angle per row expected", case)
             continue
         ans = drv.ask([f"c06 f azel {fline(llh[i][0], llh[i][1])} {fline(*trs_rows[i])} {fline(*targets[i])}" for i in range(m)])
         arr = floats(drv.ask1("c06 f rowsazel " + " ".join(f"{fline(llh[i][0], llh[i][1])} {fline(*trs_rows[i])} {fline(*targets[i])}" for i in range(m))))
